@@ -1047,6 +1047,10 @@ func (d *driver) visit(sc script, cfg Config, counted bool) (*runState, bool) {
 }
 
 func (d *driver) finish(sc script, cfg Config, rs *runState) {
+	d.finishReal(sc, cfg, rs, rs.real)
+}
+
+func (d *driver) finishReal(sc script, cfg Config, rs *runState, realWait bool) {
 	d.r.Eval()
 	ex := predict(sc.word, cfg, sc.ev, rs.mode)
 	d.r.Outcome(d.tg.Name + "|" + rs.outcome(d.tg, ex))
@@ -1057,6 +1061,21 @@ func (d *driver) finish(sc script, cfg Config, rs *runState) {
 		fmt.Printf("C14-DUMP %s | %s | %s | %s || %s\n", cfg.Name, m["answers"], m["event"], m["expected"], m["observed"])
 	}
 	if key, msg := d.judge(sc, cfg, ex, rs); key != "" {
+		// Confirm before believing: a defect of the exporter is deterministic, a glitch of the
+		// harness's own observations (how a Shutdown overlapping an export behaves is observed
+		// with real goroutines and multi-second timeouts, which a heavily loaded machine can
+		// exceed) is not. The script is executed twice more on fresh exporters, re-observing the
+		// shutdown mode each time; the failure is reported only if it recurs with the same key.
+		for i := 0; i < 2; i++ {
+			delete(d.observed, sc.ev.What == ShutdownExpired)
+			rs2 := d.exec(sc, cfg, realWait)
+			ex2 := predict(sc.word, cfg, sc.ev, rs2.mode)
+			if key2, _ := d.judge(sc, cfg, ex2, rs2); key2 != key {
+				d.r.Count("alarms_not_reproduced_on_reexecution", 1)
+				d.r.Note("script %v: %q did not recur on re-execution (got %q): harness timing glitch, not reported", d.describe(sc, cfg, ex, rs)["answers"], key, key2)
+				return
+			}
+		}
 		d.r.FailHere(d.tg.Name+"|"+key, d.describe(sc, cfg, ex, rs), "%s", msg)
 	}
 }
